@@ -161,6 +161,8 @@ class AddStream(HTMLHandlerBase):
         st = models.Stream.get(directory=data['directory'])
         if st:
             models.db.session.delete(st)
+            # the row has to be gone before a stream with the same directory is inserted
+            models.db.session.flush()
         st = models.Stream(**data)
         st.add(commit=True)
         if not is_ajax():
